@@ -31,7 +31,9 @@ REVERTS = [
     ('revert-F3-class-default', ['C06'], 'fastparquet/api.py', '    _categories = None\n    _columns_dtype = None\n', '    _categories = None\n'),
     ('revert-F4-no-restore', ['C07', 'C18'], 'fastparquet/writer.py',
      '                f.seek(footer_start)\n                f.write(old_tail)\n                f.truncate()\n', '                pass\n'),
-    ('revert-F5-schema-copy', ['C20'], 'fastparquet/api.py', '        fmd.schema = [s.copy() for s in fmd.schema]\n', ''),
+    ('revert-F5-schema-copy', ['C20'], 'fastparquet/api.py',
+     '        # own schema elements: SchemaHelper rebuilds their tree in place\n        fmd.schema = [s.copy() for s in fmd.schema]\n',
+     '        # own schema elements: SchemaHelper rebuilds their tree in place\n'),
     ('revert-F6-bool-repetition', ['C02', 'C10'], 'fastparquet/writer.py',
      '''            se.repetition_type = (
                 parquet_thrift.FieldRepetitionType.OPTIONAL
